@@ -772,12 +772,6 @@ theorem C02_no_stuck_state (w0 : World) (h0 : w0.flows = []) (hf : w0.cm.tooFull
 def Noticed (p : ProxyS) : Prop :=
   Settled p ∧ (p.sw.shutW = true → p.mw.shutW = true → p.sw.buf = [] → p.mw.buf = [] → p.ok = false)
 
-/-- The callbacks `runonce` makes when the tunnel's read file is ready: it is in every handler's
-`socks`, so every handler of that end gets its callback, in list order, each with whatever its own
-socket does (`ios i`). -/
-def passCallbacks (e : End) (ios : Nat → CbIo) (k : Nat) : List Step :=
-  (List.range k).map fun i => Step.cb e i (ios i)
-
 theorem cb_noticed (w : World) (e : End) (i : Nat) (io : CbIo) (hd : (w.stepRaw (.cb e i io)).died = none)
     (hd0 : w.died = none) (f : Flow) (p : ProxyS) (hf : (w.stepRaw (.cb e i io)).flows[i]? = some f)
     (hp : handlerAt e f = some p) (hi : ∃ f0, w.flows[i]? = some f0 ∧ (handlerAt e f0).isSome) : Noticed p := by
